@@ -228,7 +228,7 @@ def gen_c08_case(rng, depth):
 
 
 def run(ctx):
-    n = ctx.budget(6000, 80000)
+    n = ctx.budget(5000, 60000)
     rng = ctx.rng("keyed")
     cases = [gen_c08_case(rng, 2) for _ in range(n)]
     cases = [c for c in cases if unique_keys(c)]
